@@ -190,8 +190,8 @@ struct FnDirective {
     clauses: Vec<(String, String, Vec<String>)>,
     loops: BTreeMap<usize, Vec<(String, String, Vec<String>)>>,
     entry: Vec<String>,
-    tail: Vec<String>,
-    before: Vec<(String, Vec<String>)>,
+    tail: Vec<(String, String, Vec<String>)>,
+    before: Vec<(String, Vec<(String, String, Vec<String>)>)>,
     body_props: Vec<String>,
 }
 
@@ -431,16 +431,30 @@ fn emit_fn(d: &FnDirective, srcs: &mut Sources, out: &mut Out, stats: &mut norm:
         if let Some(k) = line.trim().strip_prefix("__zx_before_").and_then(|r| r.strip_suffix("!();")) {
             let k: usize = k.parse().unwrap_or_else(|_| die("internal", "bad before marker"));
             let lead: String = line.chars().take_while(|c| c.is_whitespace()).collect();
-            for e in &d.before[k].1 {
-                out.push(&format!("{}{}", lead, e.trim()));
+            if out.cur() > seg_start {
+                out.regions.push(Region { start: seg_start, end: out.line, kind: "fn-body".into(), item: item_name.clone(), clause: String::new(), props: d.body_props.clone() });
             }
+            for (e, id, props) in &d.before[k].1 {
+                let s0 = out.cur();
+                out.push(&format!("{}{}", lead, e.trim()));
+                let pr = if props.is_empty() { d.body_props.clone() } else { props.clone() };
+                out.regions.push(Region { start: s0, end: out.line, kind: "ghost-clause".into(), item: item_name.clone(), clause: id.clone(), props: pr });
+            }
+            seg_start = out.cur();
             i += 1;
             continue;
         }
         if line.trim() == "__zx_tail!();" {
-            for e in &d.tail {
-                out.push(&format!("{}{}", ind1, e.trim()));
+            if out.cur() > seg_start {
+                out.regions.push(Region { start: seg_start, end: out.line, kind: "fn-body".into(), item: item_name.clone(), clause: String::new(), props: d.body_props.clone() });
             }
+            for (e, id, props) in &d.tail {
+                let s0 = out.cur();
+                out.push(&format!("{}{}", ind1, e.trim()));
+                let pr = if props.is_empty() { d.body_props.clone() } else { props.clone() };
+                out.regions.push(Region { start: s0, end: out.line, kind: "ghost-clause".into(), item: item_name.clone(), clause: id.clone(), props: pr });
+            }
+            seg_start = out.cur();
             i += 1;
             continue;
         }
@@ -754,12 +768,12 @@ fn main() {
                 Sec::Clauses => d.clauses.push((raw.clone(), cur_tag.0.clone(), cur_tag.1.clone())),
                 Sec::Loop(k) => d.loops.get_mut(&k).unwrap().push((raw.clone(), cur_tag.0.clone(), cur_tag.1.clone())),
                 Sec::Entry => d.entry.push(raw.clone()),
-                Sec::Tail => d.tail.push(raw.clone()),
+                Sec::Tail => d.tail.push((raw.clone(), cur_tag.0.clone(), cur_tag.1.clone())),
                 Sec::Before(k) => {
                     if !(t.starts_with("proof") || t.starts_with("assert") || t.starts_with("}") || t.starts_with("let ghost") || t.starts_with("reveal") || t.starts_with("//") || t.starts_with("lemma")) {
                         // only ghost text may be spliced into bodies
                     }
-                    d.before[k].1.push(raw.clone())
+                    d.before[k].1.push((raw.clone(), cur_tag.0.clone(), cur_tag.1.clone()))
                 }
                 Sec::Attr => d.attrs.push(t.to_string()),
             }
